@@ -311,6 +311,43 @@ fn check_sub(c: &Case, mem: Option<&Guarded>) -> Result<(), String> {
     eq!("find_iter fused", (it2.next(), it2.next()), (None::<usize>, None::<usize>));
     let gr = greedy_rev(h, n);
     eq!("rfind_iter", fr.rfind_iter(h).take(gr.len() + 3).collect::<Vec<_>>(), gr);
+    // clone / into_owned at every point of an iteration, also past exhaustion (C16, C08)
+    {
+        let mut it = f.find_iter(h);
+        for k in 0..gf.len() + 2 {
+            let rest: Vec<usize> = gf.iter().skip(k).cloned().collect();
+            eq!("find_iter clone mid-iteration", it.clone().take(rest.len() + 2).collect::<Vec<_>>(), rest);
+            eq!("find_iter into_owned mid-iteration", it.clone().into_owned().take(rest.len() + 2).collect::<Vec<_>>(), rest);
+            it.next();
+        }
+        let mut rit = fr.rfind_iter(h);
+        for k in 0..gr.len() + 2 {
+            let rest: Vec<usize> = gr.iter().skip(k).cloned().collect();
+            eq!("rfind_iter clone mid-iteration", rit.clone().take(rest.len() + 2).collect::<Vec<_>>(), rest);
+            eq!("rfind_iter into_owned mid-iteration", rit.clone().into_owned().take(rest.len() + 2).collect::<Vec<_>>(), rest);
+            rit.next();
+        }
+    }
+    // no interference between finders (C16): building one for a similar needle (same length, same tail) first
+    if !n.is_empty() {
+        let mut n2 = n.to_vec();
+        if n.len() > 32 {
+            // same length, same last 32 bytes (same Rabin-Karp hash), different structure before them
+            for x in n2[..n.len() - 32].iter_mut() {
+                *x = if *x == b'a' { b'b' } else { b'a' };
+            }
+        } else {
+            n2[0] ^= 0x20;
+        }
+        let f2 = memmem::Finder::new(&n2);
+        let f3 = memmem::Finder::new(n);
+        eq!("Finder::find after building a finder for a similar needle", f3.find(h), want);
+        eq!("Finder::find for the similar needle", f2.find(h), naive_find(h, &n2));
+        let r2 = memmem::FinderRev::new(&n2);
+        let r3 = memmem::FinderRev::new(n);
+        eq!("FinderRev::rfind after building a finder for a similar needle", r3.rfind(h), rwant);
+        eq!("FinderRev::rfind for the similar needle", r2.rfind(h), naive_rfind(h, &n2));
+    }
     // building blocks (C12)
     eq!("rabinkarp::Finder", rabinkarp::Finder::new(n).find(h, n), want);
     eq!("rabinkarp::FinderRev", rabinkarp::FinderRev::new(n).rfind(h, n), rwant);
